@@ -8,6 +8,7 @@ import sys
 import time
 
 VERIF = os.path.dirname(os.path.dirname(os.path.abspath(__file__)))
+EVIDENCE_DIR = os.environ.get('PYVC_EVIDENCE_DIR') or os.path.join(VERIF, 'evidence')
 LOCK = os.path.join(VERIF, 'obligations.lock.json')
 KNOWN = os.path.join(VERIF, 'known_findings.json')
 VENV_PY = '/venv/bin/python'
@@ -214,8 +215,8 @@ def finish(pid, tier, results, wall, verbose=True):
         },
         'assumptions': sorted(assumptions),
     }
-    os.makedirs(os.path.join(VERIF, 'evidence'), exist_ok=True)
-    with open(os.path.join(VERIF, 'evidence', f'{pid}.json'), 'w') as f:
+    os.makedirs(EVIDENCE_DIR, exist_ok=True)
+    with open(os.path.join(EVIDENCE_DIR, f'{pid}.json'), 'w') as f:
         json.dump(ev, f, indent=1)
     if errors or n == 0 or covers_bad:
         return 3
@@ -233,7 +234,7 @@ def relock(pids, run_property):
         if rc != 0:
             print(f'refusing to lock {pid}: exit {rc}')
             continue
-        ev = json.load(open(os.path.join(VERIF, 'evidence', f'{pid}.json')))
+        ev = json.load(open(os.path.join(EVIDENCE_DIR, f'{pid}.json')))
         lock[pid] = sorted(o['name'] for o in ev['coverage']['obligation_list'])
     with open(LOCK, 'w') as f:
         json.dump(lock, f, indent=1, sort_keys=True)
